@@ -20,16 +20,20 @@ fn c01(args: &[Val]) -> Val {
     let path = UnixPath::new(p);
     let mut it = path.components();
     let mut steps = Vec::new();
+    let mut flags = Vec::new();
     for d in sched.iter() {
         let cm = if *d { it.next_back() } else { it.next() };
         steps.push(t2(opt(cm, |x| x.val()), b(it.as_bytes())));
+        flags.push(t2(Val::Bool(it.has_root()), Val::Bool(it.is_absolute())));
     }
     let sp_ = sp(p);
     let mut sit = sp_.components();
     let mut ssteps = Vec::new();
+    let mut sflags = Vec::new();
     for d in sched.iter() {
         let cm = if *d { sit.next_back() } else { sit.next() };
         ssteps.push(t2(opt(cm, |x| comp(&x)), list(sit.as_path().components(), |x| comp(&x))));
+        sflags.push(t2(Val::Bool(sit.as_path().has_root()), Val::Bool(sit.as_path().is_absolute())));
     }
     c("c01", vec![
         Val::L(steps),
@@ -39,6 +43,8 @@ fn c01(args: &[Val]) -> Val {
         Val::Bool(sp_.has_root()),
         Val::Bool(sp_.is_absolute()),
         u_try_from(p),
+        Val::L(flags),
+        Val::L(sflags),
     ])
 }
 
